@@ -146,7 +146,7 @@ class Speed(Job):
 
 
 def jobs(tier):
-    N = 4 if tier == "quick" else 6
+    N = 4 if tier == "quick" else 7
     out = []
     for n in range(0, N + 1):
         out.append(RateOfChange(n))
@@ -157,7 +157,7 @@ def jobs(tier):
         out.append(RateOfChange(n, frac=True))
     out.append(RateOfChange(3, "epoch", frac=True))
     out.append(Speed(2, frac=True))
-    for n in range(0, (3 if tier == "quick" else 4) + 1):
+    for n in range(0, (3 if tier == "quick" else 5) + 1):
         out.append(Speed(n))
     out.append(Speed(2, "epoch"))
     for w in ("rate_of_change", "speed_time", "speed_lat"):
@@ -185,7 +185,7 @@ ASSUMPTIONS = ["numpy.ma / pandas.to_datetime environment model validated per pa
 
 
 def bounds(tier):
-    return {"series_length": "0..4" if tier == "quick" else "0..6", "speed_track_length": "0..3" if tier == "quick" else "0..4",
+    return {"series_length": "0..4" if tier == "quick" else "0..7", "speed_track_length": "0..3" if tier == "quick" else "0..5",
             "time_steps": "symbolic whole seconds 1..2^22, times within 2018-2024", "time_carriers": ["datetime64[ns]", "epoch seconds (int)"],
             "threshold": "symbolic >= 0"}
 
